@@ -22,4 +22,5 @@ run_one() {
   git -C /repo worktree remove --force $wt
 }
 export -f run_one
+trap 'kill 0' INT TERM
 printf '%s\n' "$@" | xargs -P $jobs -I{} bash -c 'run_one "$@"' _ {} "${props[@]}"
